@@ -60,3 +60,19 @@ pub open spec fn same_except(a: Fs, b: Fs, q: PathV) -> bool {
     &&& forall|p: PathV| p != q && #[trigger] a.files.contains_key(p) ==> a.files[p] == b.files[p]
     &&& a.links == b.links
 }
+
+pub proof fn lemma_under_child_towards(d: PathV, p: PathV)
+    requires strictly_under(p, d)
+    ensures under(p, child_towards_spec(d, p)), parent_of(child_towards_spec(d, p)) == d, child_towards_spec(d, p).comps.len() == d.comps.len() + 1,
+        under(child_towards_spec(d, p), d),
+{
+    let n = d.comps.len() as int;
+    assert(p.comps.len() > n) by {
+        if p.comps.len() == n { assert(p.comps.subrange(0, n) =~= p.comps); }
+    }
+    let c = child_towards_spec(d, p);
+    assert(c.comps.drop_last() =~= d.comps) by { assert(p.comps.subrange(0, n + 1).subrange(0, n) =~= p.comps.subrange(0, n)); }
+    assert(p.comps.subrange(0, n + 1) =~= c.comps);
+    assert(c.comps.subrange(0, n) =~= d.comps);
+}
+pub open spec fn child_towards_spec(d: PathV, p: PathV) -> PathV { PathV { comps: p.comps.subrange(0, d.comps.len() as int + 1) } }
